@@ -9,10 +9,15 @@ from multidict import CIMultiDict
 
 
 class _Content:
-    def __init__(self, body: bytes):
+    def __init__(self, body: bytes, on_read=None):
         self._body = body
+        self._on_read = on_read
 
     async def read(self, size=None):
+        # the body read is where an aiohttp handler really suspends: other requests may run here
+        if self._on_read is not None:
+            hook, self._on_read = self._on_read, None
+            hook()
         return self._body
 
 
@@ -20,7 +25,7 @@ class AioRequest:
     """What xandikos' handlers read from an aiohttp.web.Request."""
 
     def __init__(self, method, path_info, *, prefix="", headers=None, body=b"",
-                 content_type="application/octet-stream", has_body=None):
+                 content_type="application/octet-stream", has_body=None, on_read=None):
         self.method = method
         self.match_info = {"path_info": path_info}
         # aiohttp: request.path is the percent-decoded path of the request target (prefix + path_info)
@@ -31,7 +36,7 @@ class AioRequest:
         self.headers = CIMultiDict(headers or [])
         self.content_type = content_type
         self.content_length = len(body)
-        self.content = _Content(body)
+        self.content = _Content(body, on_read)
         self.can_read_body = bool(body) if has_body is None else has_body
 
     async def read(self):
